@@ -90,9 +90,17 @@ Lemma erase_base x b : erase x = TBase b -> x = EBase b.
 Proof. destruct x; cbn [erase]; try discriminate. intros H. now injection H as ->. Qed.
 
 (** ** what an [Ok] result of the typed decoder means *)
-Definition tdecoded (be : bool) (c : uctx) (v : val) (c' : uctx) (e : ety) : Prop :=
+Definition tdecoded0 (be : bool) (c : uctx) (v : val) (c' : uctx) (e : ety) : Prop :=
   (forall d, d + edepth e <= MAX_DEPTH -> denotes be d (ubuf c) (uoff c) (uoff c' - uoff c) v (erase e))
   /\ c' = set_off c (uoff c') /\ uoff c <= uoff c' /\ fds_lt (unfds c) v = true /\ ety_matches e v = true.
+(* What the typed decoder counts: only Variant enters a container (enter_container in sub_context_for_value), so
+   the context's depth is the number of variants the cursor is inside of; arrays, tuple structs and dicts of the
+   Rust type are not counted. The content of a variant is validated at the context's depth + 1, so a value decoded
+   through a Variant type is encodable at the context's depth outright; everything else is encodable at every
+   depth that leaves room for the nesting of the Rust type. *)
+Definition tdecoded (be : bool) (c : uctx) (v : val) (c' : uctx) (e : ety) : Prop :=
+  tdecoded0 be c v c' e
+  /\ (forall x, e = EVar x -> denotes be (udepth c) (ubuf c) (uoff c) (uoff c' - uoff c) v TVariant).
 
 Lemma u_base_tsound be b c v c' : bytes_ok (ubuf c) -> u_base be b c = Ok (v, c') -> tdecoded be c v c' (EBase b).
 Proof.
@@ -101,7 +109,7 @@ Proof.
   { destruct v; try discriminate Hw; cbn [wt ety_matches] in *.
     - apply andb_prop in Hw. destruct Hw as [Hw _]. apply andb_prop in Hw. destruct Hw as [Hw _]. now apply andb_prop in Hw.
     - now apply andb_prop in Hw. }
-  split; [|auto]. intros d _. now destruct (u_base_sound_d be b c v c' d Hb H).
+  split; [|intros x E; discriminate E]. split; [|auto]. intros d _. now destruct (u_base_sound_d be b c v c' d Hb H).
 Qed.
 
 (** ** the field loop of tuple structs *)
@@ -192,7 +200,7 @@ Proof.
         - apply Forall_forall. intros y Hin. rewrite forallb_forall in Hw. now apply Hw.
         - nia. }
       destruct (Hvals 0) as (vs0 & Hlen0 & Hall0 & Hc0). rewrite (Hch 0 vs0 Hlen0 Hc0).
-      unfold tdecoded, set_off; cbn [ubuf uoff unfds udepth].
+      unfold tdecoded, tdecoded0, set_off; cbn [ubuf uoff unfds udepth]. split; [|intros x0 E0; discriminate E0].
       split; [|split; [reflexivity|split; [subst start; lia|split]]].
       * intros d Hd. destruct (Hvals (d + 1)) as (vs & Hlen & Hall & Hc').
         assert (vs = vs0) by (rewrite <- (Hch _ vs Hlen Hc'); now apply (Hch 0)). subst vs.
@@ -230,7 +238,7 @@ Proof.
         destruct (u_align (align (erase x)) _) as [c1| | | |] eqn:Ea1; cbn [bind] in Er; try discriminate.
         destruct (u_align_ok _ _ _ (align_pos (erase x)) Ea1) as (-> & Hla & Hza). unfold set_off in *; cbn [ubuf uoff unfds udepth] in *.
         destruct r as [y cy]. apply IHx in Er; [|exact Hwf|exact Hoke|unfold MAX_DEPTH in *; lia|exact Hbcl|exact Hla].
-        destruct Er as (Hden & Ecy & Hly & Hfy & Hmy). unfold set_off in *; cbn [ubuf uoff unfds udepth fst snd] in *.
+        destruct Er as ((Hden & Ecy & Hly & Hfy & Hmy) & _). unfold set_off in *; cbn [ubuf uoff unfds udepth fst snd] in *.
         assert (Hend : uoff cy <= len cl) by (destruct (Hden 0 ltac:(unfold MAX_DEPTH in *; lia)) as (_ & _ & _ & Hx); lia).
         split; [exact Ecy|]. split; [lia|]. split; [|auto]. intros d Hd.
         replace (uoff cy - offc) with (padlen (align (erase x)) offc + (uoff cy - (offc + padlen (align (erase x)) offc))) by lia.
@@ -238,7 +246,7 @@ Proof.
       destruct (sub_loop_chain _ _ s Hone (S (N.to_nat n)) s [] vs ltac:(subst s; reflexivity) ltac:(subst s; cbn [ubuf uoff]; lia) El)
         as (xs & Exs & Hxs). clear Hone.
       cbn [app rev] in Exs. subst xs. subst s c3. cbn [ubuf uoff] in Hxs. fold cl in Hxs. rewrite Lcl in Hxs. cbn [uoff].
-      unfold tdecoded, set_off; cbn [ubuf uoff unfds udepth].
+      unfold tdecoded, tdecoded0, set_off; cbn [ubuf uoff unfds udepth]. split; [|intros x0 E0; discriminate E0].
       split; [|split; [reflexivity|split; [subst start; lia|split]]].
       * intros d Hd. cbn [edepth] in Hd. replace (start + p2 + n - off) with (p1 + 4 + p2 + n) by (subst start; lia).
         apply denotes_array; try assumption; fold p1; fold start; fold p2; try (unfold MAX_DEPTH in *; lia).
@@ -267,20 +275,20 @@ Proof.
       assert (Hed' : edepth f <= MAX_DEPTH) by (pose proof (edepth_in es f Hin); lia).
       destruct y as [y cy]. cbn [fst snd]. destruct first; cbn [bind] in Ey.
       - apply (IHes f Hin) in Ey; [|exact Hwf'|exact Hok'|exact Hed'|exact Hb|exact Hcc].
-        destruct Ey as (Hden & Ecy & Hly & Hfy & Hmy). unfold set_off in *; cbn [ubuf uoff unfds udepth] in *.
+        destruct Ey as ((Hden & Ecy & Hly & Hfy & Hmy) & _). unfold set_off in *; cbn [ubuf uoff unfds udepth] in *.
         assert (Hend : uoff cy <= len buf) by (destruct (Hden 0 ltac:(lia)) as (_ & _ & _ & Hx); lia).
         split; [exact Ecy|]. split; [lia|]. auto.
       - destruct (u_align (ealign f) _) as [c2| | | |] eqn:Ea2; cbn [bind] in Ey; try discriminate.
         destruct (u_align_ok _ _ _ (align_pos (erase f)) Ea2) as (-> & Hla & Hza). unfold set_off in *; cbn [ubuf uoff unfds udepth] in *.
         apply (IHes f Hin) in Ey; [|exact Hwf'|exact Hok'|exact Hed'|exact Hb|exact Hla].
-        destruct Ey as (Hden & Ecy & Hly & Hfy & Hmy). unfold set_off in *; cbn [ubuf uoff unfds udepth] in *.
+        destruct Ey as ((Hden & Ecy & Hly & Hfy & Hmy) & _). unfold set_off in *; cbn [ubuf uoff unfds udepth] in *.
         assert (Hend : uoff cy <= len buf) by (destruct (Hden 0 ltac:(lia)) as (_ & _ & _ & Hx); lia).
         split; [exact Ecy|]. split; [lia|]. split; [|auto]. intros d Hd.
         replace (uoff cy - offc) with (padlen (align (erase f)) offc + (uoff cy - (offc + padlen (align (erase f)) offc))) by lia.
         apply denotes_pad; [exact Hza|]. now apply Hden. }
     destruct (t_fields_chain _ _ c1 es Hone true c1 [] r eq_refl ltac:(cbn [ubuf uoff c1]; lia) Ef) as (Er & Hr & xs & Exs & Em & Hxs).
     clear Hone. cbn [app rev ubuf uoff c1] in *. rewrite Exs. rewrite Er. subst c1. subst es. unfold set_off; cbn [ubuf uoff unfds udepth].
-    unfold tdecoded, set_off; cbn [ubuf uoff unfds udepth].
+    unfold tdecoded, tdecoded0, set_off; cbn [ubuf uoff unfds udepth]. split; [|intros x0 E0; discriminate E0].
     split; [|split; [reflexivity|split; [lia|split]]].
     + intros d Hd. replace (uoff (snd r) - off) with (p + (uoff (snd r) - (off + p))) by lia.
       cbn [erase]. rewrite map_map.
@@ -333,7 +341,7 @@ Proof.
       destruct (unmarshal_t (S vf) be ve _) as [[vv cv]| | | |] eqn:Ev; cbn [bind fst snd] in Er; try discriminate.
       injection Er as <-. cbn [fst snd].
       apply IHv in Ev; [|exact Hwf|exact Hoke|unfold MAX_DEPTH in *; lia|exact Hbcl|exact Hla2].
-      destruct Ev as (Hdv & Ecv & Hlv & Hfv & Hmv). unfold set_off in *; cbn [ubuf uoff unfds udepth] in *.
+      destruct Ev as ((Hdv & Ecv & Hlv & Hfv & Hmv) & _). unfold set_off in *; cbn [ubuf uoff unfds udepth] in *.
       assert (Hend : uoff cv <= len cl) by (destruct (Hdv 0 ltac:(unfold MAX_DEPTH in *; lia)) as (_ & _ & _ & Hx); lia).
       split; [exact Ecv|]. split; [lia|]. split; [|split; [now rewrite Hfk, Hfv|exact Hmv]].
       intros d Hd.
@@ -345,7 +353,7 @@ Proof.
     destruct (sub_loop_chain _ _ s Hone (S (N.to_nat n)) s [] kvs ltac:(subst s; reflexivity) ltac:(subst s; cbn [ubuf uoff]; lia) El)
       as (xs & Exs & Hxs). clear Hone.
     cbn [app rev] in Exs. subst xs. subst s c3. cbn [ubuf uoff] in Hxs. fold cl in Hxs. rewrite Lcl in Hxs.
-    unfold tdecoded, set_off; cbn [ubuf uoff unfds udepth].
+    unfold tdecoded, tdecoded0, set_off; cbn [ubuf uoff unfds udepth]. split; [|intros x0 E0; discriminate E0].
     split; [|split; [reflexivity|split; [subst start; lia|split]]].
     + intros d Hd. cbn [edepth] in Hd. cbn [erase]. replace (start + p2 + n - off) with (p1 + 4 + p2 + n) by (subst start; lia).
       apply denotes_dict; try assumption; fold p1; fold start; fold p2; try (unfold MAX_DEPTH in *; lia).
@@ -357,7 +365,7 @@ Proof.
       eapply chain_forall; [|exact Hxs]. intros q k y (_ & Hy & _); exact Hy.
     + cbn [ety_matches]. rewrite base_eqb_refl, ty_eqb_refl. cbn [andb]. apply forallb_forall. apply Forall_forall.
       eapply chain_forall; [|exact Hxs]. intros q k y (_ & _ & Hy); exact Hy.
-  - (* variant with a typed get *)
+  - (* variant with a typed get: enter, validate at the raised depth, sub-context carrying the raised depth, leave *)
     rewrite unmarshal_t_var_eq' in H. cbn [edepth] in Hed.
     destruct c as [buf off nf d0]. cbn [ubuf uoff unfds udepth] in *. unfold u_read_sig in H. cbn [ubuf uoff] in H.
     destruct (unmarshal_signature buf off) as [[k s]| | | |] eqn:Es; cbn [bind fst snd] in H; try discriminate.
@@ -380,16 +388,49 @@ Proof.
     assert (Lcl : len cl = off1 + n) by (apply len_firstnN_le; lia).
     apply IHvf in Ey; [|exact (type_ok_wf _ Htok)|exact (type_ok_tys_ok _ Htok)|unfold MAX_DEPTH in *; lia
                        |now apply bytes_ok_firstnN|cbn [ubuf uoff]; lia].
-    destruct Ey as (Hdy & Ecy & Hly & Hfy & Hmy). cbn [ubuf uoff unfds udepth] in *.
-    (* the typed decoder consumed exactly what validation measured *)
-    assert (Hm : uoff cy - off1 = n).
+    destruct Ey as ((Hdy & Ecy & Hly & Hfy & Hmy) & _). cbn [ubuf uoff unfds udepth] in *.
+    (* the typed decoder consumed exactly what validation measured, and returned the value validation saw *)
+    assert (Hm : y = v' /\ uoff cy - off1 = n).
     { pose proof (denotes_clip _ _ _ _ _ _ _ _ (Hdy 0 ltac:(unfold MAX_DEPTH in *; lia))) as Hy0.
-      destruct (denotes_unique _ _ _ _ _ _ _ _ _ _ Hy0 Hv') as [_ E]. exact E. }
-    unfold tdecoded, set_off; cbn [ubuf uoff unfds udepth].
-    split; [|split; [reflexivity|split; [subst off1; lia|split; [exact Hfy|]]]].
+      exact (denotes_unique _ _ _ _ _ _ _ _ _ _ Hy0 Hv'). }
+    destruct Hm as [Eyv Hm]. subst v'.
+    unfold tdecoded, tdecoded0, u_leave, set_off; cbn [ubuf uoff unfds udepth].
+    assert (Hvar : denotes be d0 buf off (off1 + n - off) (VVariant (erase x) y) TVariant).
+    { replace (off1 + n - off) with (k + (padlen (align (erase x)) (off + k) + n)) by (subst off1; lia).
+      eapply denotes_variant; try eassumption. apply denotes_pad; [exact Hza|]. exact Hv'. }
+    split; [|intros x0 _; exact Hvar].
+    split; [|split; [f_equal; lia|split; [subst off1; lia|split; [exact Hfy|]]]].
     + intros d Hd. cbn [edepth] in Hd. cbn [erase].
       replace (off1 + n - off) with (k + (padlen (align (erase x)) (off + k) + n)) by (subst off1; lia).
       eapply denotes_variant; try eassumption; [unfold MAX_DEPTH in *; lia|].
       apply denotes_pad; [exact Hza|]. fold off1. rewrite <- Hm. eapply denotes_clip. apply Hdy. lia.
     + cbn [ety_matches]. rewrite ty_eqb_refl. exact Hmy.
+Qed.
+
+(** ** the nesting hypothesis of the typed theorems
+    The typed decoder counts variants only (see [tdecoded]). For a Variant type nothing has to be assumed about the
+    context's depth: entering checks it and the content is validated one level deeper; the Rust type only has to
+    fit in the protocol limit by itself (which makes the decoded content comparable with the validated one). For
+    every other type the nesting of the Rust type has to fit on top of the context's depth, because its arrays,
+    structs and dicts are not counted while decoding. *)
+Definition typed_depth_ok (c : uctx) (e : ety) : Prop :=
+  match e with
+  | EVar _ => edepth e <= MAX_DEPTH
+  | _ => udepth c + edepth e <= MAX_DEPTH
+  end.
+Lemma typed_depth_ok_sum c e : udepth c + edepth e <= MAX_DEPTH -> typed_depth_ok c e.
+Proof. destruct e; cbn [typed_depth_ok]; intros; lia. Qed.
+Lemma typed_depth_ok_edepth c e : typed_depth_ok c e -> edepth e <= MAX_DEPTH.
+Proof. destruct e; cbn [typed_depth_ok]; intros; lia. Qed.
+
+Theorem unmarshal_t_sound_at_depth be vf e c v c' :
+  wf (erase e) = true -> tys_ok (erase e) = true -> typed_depth_ok c e ->
+  bytes_ok (ubuf c) -> uoff c <= len (ubuf c) ->
+  unmarshal_t vf be e c = Ok (v, c') ->
+  denotes be (udepth c) (ubuf c) (uoff c) (uoff c' - uoff c) v (erase e)
+  /\ c' = set_off c (uoff c') /\ uoff c <= uoff c' /\ fds_lt (unfds c) v = true /\ ety_matches e v = true.
+Proof.
+  intros Hw Ht Hd Hb Ho H.
+  destruct (unmarshal_t_sound be vf e c v c' Hw Ht (typed_depth_ok_edepth c e Hd) Hb Ho H) as ((Hden & Hrest) & Hvar).
+  split; [|exact Hrest]. destruct e as [b|x|es|k x|x]; try (apply Hden; exact Hd). exact (Hvar x eq_refl).
 Qed.
